@@ -228,5 +228,25 @@ def run(ctx):
     ctx.differential(template(2, [(True, 2, 0), (True, 0, 0)]), {})
 
 
+def native(ctx):
+    n = 60 if ctx.tier == 'quick' else 600
+    done = False
+    for i in range(n):
+        k = ctx.rng.choice([2, 3, 4, 5, 6])
+        pool_g = [0, 1, 2, 3, 7, 2 ** 32 - 1]
+        pool_b = [0, 1, 2, 5, 9, 2 ** 31, 2 ** 32 - 1]
+        vals = [(ctx.rng.random() < 0.85, ctx.rng.choice(pool_g[:3] if ctx.rng.random() < 0.8 else pool_g), ctx.rng.choice(pool_b[:4] if ctx.rng.random() < 0.8 else pool_b))
+                for _ in range(k)]
+        src = template(k, vals)
+        r = ctx.S.oracle.gen(src, {})
+        got = 'ok' if 'ok' in r else r.get('err', r)
+        exp = verdict(vals)
+        bad = not same_verdict(got, exp) or ('ok' in r and not layout_matches(ctx, r['ok'], vals))
+        if bad and not done:
+            done = True
+            ctx.report('C11/native', f'pairs {vals}: real build returns {str(got)[:100]}, contract says {exp}', {'wgsl': src}, True, {'real': str(got)[:200], 'expected': exp})
+        elif not bad:
+            ctx.replayed_ok += 1
+
 if __name__ == '__main__':
-    sys.exit(main('C11', run))
+    sys.exit(main('C11', run, native))
